@@ -96,6 +96,17 @@ def run(run):
             run.violation("reconstructor:not-the-integer-solution", dict(case=c, residual=res, got=np.asarray(R1).tolist()),
                           dict(kind="case", case=c, prev=prev))
             continue
+        # the same problem with the off-axis slopes in very different units (every second one scaled by 2^-12): C_off,off is then
+        # ill conditioned (cond ~ 1e7..1e8) but the estimator is the same up to that exact scaling
+        m = C.shape[0] - 2 * non
+        sv = np.array([1.0] * (2 * non) + [1.0 if j % 2 == 0 else 2.0 ** -12 for j in range(m)])
+        C2 = keep * np.outer(sv, sv)
+        Rs = np.asarray(sc.create_tomographic_covariance_reconstructor(C2.copy(), non, 0), float)
+        if Rs.shape == np.asarray(R1).shape:
+            Rsi, res2 = to_int(Rs * sv[2 * non:][None, :])
+            if res2 > 1e-5 or Rsi != Ri:
+                run.violation("reconstructor:ill-conditioned-offaxis-block", dict(case=c, residual=res2, got=Rsi, expected=Ri),
+                              dict(kind="case", case=c, prev=prev))
         trace.append(dict(id=k, non=non, dup=c["dup"], C=c["C"], R=Ri))
         meta[k] = c
         prev = c
